@@ -94,6 +94,10 @@ def service_cases(tier, inst):
     tiny = (inst[0], inst[1], 1.3e-7 * inst[2], inst[3])
     for ms in P.stream_multisets(tiny, 3, 2, cps=(1, 2), dts=(0, 1), iso=False):
         yield {"streams": ms, "zones": ["A"] * len(ms) if len(ms) == 1 else ["A", "B"]}
+    # problems of realistic size (10-40 streams): every lattice stream type at once and regular sub-selections, one zone and three zones
+    for ms in P.crowds(inst, 4, dts=(0, 1)):
+        yield {"streams": ms, "zones": ["A"] * len(ms)}
+        yield {"streams": ms, "zones": [["A", "B", "A/C"][i % 3] for i in range(len(ms))]}
     # tolerance-edge family: two streams whose bounds differ by tiny amounts
     T = A.lattice(inst, 4)
     cpu = inst[2]
@@ -171,6 +175,6 @@ SUBCHECKS = {
              "non-trivial = some zone has overlapping hot and cold streams; outcomes = distinct per-zone target lists",
         cases=service_cases, run=service_run,
         bound=lambda t: ("multisets of <=2 streams (K=4) x all label schemes of <=2 zones" if t == "quick" else "multisets of <=3 streams (K=4) x all label schemes of <=2 zones")
-        + " + same-name identical streams + zero-crossing lattice + small non-round duties + bench-scale duties (~1e-5 in total) + latent-span and tolerance-edge families",
+        + " + same-name identical streams + zero-crossing lattice + small non-round duties + bench-scale duties (~1e-5 in total) + 7 problems of 10-40 streams x 2 zonings + latent-span and tolerance-edge families",
     ),
 }
